@@ -580,8 +580,13 @@ pub fn t_repeat_interleave(xs: &[usize], axis: usize, repeats: usize, tile: bool
 
 /// Grouped-query attention matmul: MatMul(Q, RepeatInterleave(K)) (`qk`: with transpose + scale).
 pub fn t_gqa(qk: bool, rep_axis: usize, perm: &[i64]) -> Tm {
+    t_gqa_dims(qk, rep_axis, perm, 4)
+}
+
+/// `d = 3` makes seq == d_model, so that permutations other than `[0,1,3,2]` still give a valid MatMul.
+pub fn t_gqa_dims(qk: bool, rep_axis: usize, perm: &[i64], d: usize) -> Tm {
     let mut b = B::new();
-    let (bsz, kvh, r, s, d) = (1usize, 2usize, 2usize, 3usize, 4usize);
+    let (bsz, kvh, r, s) = (1usize, 2usize, 2usize, 3usize);
     let kshape = [bsz, kvh, s, d];
     let k = b.x("k", &kshape);
     let ax = b.ci(&[1], &[(rep_axis + 1) as i64]);
@@ -607,7 +612,7 @@ pub fn t_gqa(qk: bool, rep_axis: usize, perm: &[i64]) -> Tm {
         b.op("MatMul", &[&q, &kr])
     };
     b.out(&y, dt::FLOAT);
-    b.fin(format!("gqa/{}/ax{rep_axis}/perm{perm:?}", if qk { "qk" } else { "v" }), "GQA")
+    b.fin(format!("gqa/{}/ax{rep_axis}/perm{perm:?}{}", if qk { "qk" } else { "v" }, if d == 4 { String::new() } else { format!("/d{d}") }), "GQA")
 }
 
 /// Transpose feeding `consumer` (MatMul lhs/rhs/both, Concat, Slice, Split, Expand).
@@ -1262,6 +1267,11 @@ pub fn all_templates(rng: &mut Rng, thorough: bool) -> Vec<Tm> {
     v.push(t_gqa(false, 1, &[]));
     v.push(t_gqa(true, 1, &[0, 1, 3, 2]));
     v.push(t_gqa(true, 1, &[0, 1, 2, 3]));
+    // seq == d_model: the Transpose is not the `[0,1,3,2]` the GQA fusion expects but the MatMul is still valid
+    v.push(t_gqa_dims(true, 1, &[0, 1, 2, 3], 3));
+    v.push(t_gqa_dims(true, 1, &[0, 1, 3, 2], 3));
+    v.push(t_gqa_dims(true, 1, &[1, 0, 2, 3], 3));
+    v.push(t_gqa_dims(false, 1, &[], 3));
     // Transpose
     for reuse in [false, true] {
         for perm in [None, Some(vec![1i64, 0])] {
